@@ -113,7 +113,7 @@ def cases_for(c, rng, counter, mode):
     try:
         import inspect
         from . import scriptparse
-        src = inspect.getsource(c.cls.__init__)
+        src = inspect.getsource(g.init_function(c.cls))
         pos_t, kw_t, body_t = scriptparse.parse_init(src)
         _script_terms.append(("(Build_script_case %s %s %s %s)" % (spec_t, pos_t, kw_t, body_t), src))
     except Exception as e:  # unknown source shape: recorded, never an alarm
@@ -248,10 +248,17 @@ def generate(tier, seed, mode=None):
             _dist["frozen=%s" % c.frozen] += 1
             _dist["depth=%d" % (1 + (s["base"] is not None) + (s["base"] is not None and s["base"].spec["base"] is not None))] += 1
             _dist["rejected" if c.cls is None else "defined"] += 1
+            _dist["init=False (constructed through __attrs_init__)"] += bool(s.get("init_false"))
+            _dist["exception class"] += bool(s.get("exc"))
+            _dist["undecorated class in between"] += bool(s.get("plain_between"))
             if c.cls is not None:
                 _dist["fields=%d" % len(attr.fields(c.cls))] += 1
             for f in s["fields"]:
                 _dist["conv=%s" % (f["converter"] and f["converter"][0])] += 1
+                for role in f.get("falsy", ()):
+                    _dist["falsy callable object as " + role] += 1
+                _dist["shared Converter object"] += bool(f.get("conv_share"))
+                _dist["bare annotation"] += bool(f.get("bare"))
                 _dist["default=%s" % (f["default"] if isinstance(f["default"], (str, type(None))) else "factory")] += 1
     for i, c in enumerate(cases):
         c.inp["gen"] = {"tier": tier, "seed": seed, "mode": mode, "index": i}
